@@ -76,7 +76,27 @@ func flooredDiv(k, g *big.Int) *big.Int {
 // glvScalar draws a scalar from the GLV-specific classes.
 func glvScalar(r *gen.Rng, c *glvConsts, lambda *big.Int) (*big.Int, string) {
 	n := bigN
-	switch r.Intn(12) {
+	switch r.Intn(15) {
+	case 12, 13:
+		// halves whose 64-bit limbs are structured: zero / all-ones low or high
+		// limb (|k2| a multiple of 2^64, two's-complement carries between the
+		// limbs of a half), and limbs equal to / next to the limbs of (n-1)/2
+		// (limb-wise comparisons against the half order)
+		h1, h2 := structuredHalf(r), structuredHalf(r)
+		if r.Chance(1, 4) {
+			h1 = r.BigBits(1 + r.Intn(127))
+		}
+		if r.Bool() {
+			h1.Neg(h1)
+		}
+		if r.Chance(2, 3) {
+			h2.Neg(h2)
+		}
+		k := new(big.Int).Add(h1, new(big.Int).Mul(h2, lambda))
+		return oracle.Mod(k, n), "structured-halves"
+	case 14:
+		// per-limb relation (<, =, >) to (n-1)/2 chosen independently for every limb
+		return halfRelated(r), "half-order-limb-relations"
 	case 0:
 		return gen.Pick(r, big.NewInt(0), big.NewInt(1), big.NewInt(2), new(big.Int).Sub(n, big.NewInt(1)), new(big.Int).Sub(n, big.NewInt(2))), "tiny/n-1"
 	case 1:
@@ -155,6 +175,58 @@ func glvScalar(r *gen.Rng, c *glvConsts, lambda *big.Int) (*big.Int, string) {
 	}
 }
 
+// structuredHalf returns a magnitude below 2^128 built from two structured limbs.
+func structuredHalf(r *gen.Rng) *big.Int {
+	hl := oracle.Limbs(oracle.HalfN)
+	limb := func() uint64 {
+		switch r.Intn(10) {
+		case 0, 1:
+			return 0
+		case 2:
+			return ^uint64(0)
+		case 3:
+			return 1
+		case 4:
+			return 1 << 63
+		case 5:
+			return hl[r.Intn(2)]
+		case 6:
+			return hl[r.Intn(2)] + uint64(1+r.Intn(3))
+		case 7:
+			return hl[r.Intn(2)] - uint64(1+r.Intn(3))
+		default:
+			return r.U64()
+		}
+	}
+	lo, hi := limb(), limb()
+	v := new(big.Int).SetUint64(hi)
+	v.Lsh(v, 64).Or(v, new(big.Int).SetUint64(lo))
+	return v
+}
+
+// halfRelated returns a scalar whose limbs are, independently per limb, below,
+// equal to or above the corresponding limb of (n-1)/2 (reduced mod n).
+func halfRelated(r *gen.Rng) *big.Int {
+	l := oracle.Limbs(oracle.HalfN)
+	for j := range l {
+		switch r.Intn(4) {
+		case 0:
+			if l[j] != 0 {
+				l[j] -= 1 + r.U64()%l[j]
+			}
+		case 1:
+			if l[j] != ^uint64(0) {
+				l[j] += 1 + r.U64()%(^uint64(0)-l[j])
+			}
+		case 2:
+			if r.Bool() {
+				l[j] = 0
+			}
+		}
+	}
+	return oracle.Mod(oracle.FromLimbs(l), bigN)
+}
+
 func runC04(r *mon.Run) {
 	n := bigN
 	lambda := oracle.Lambda
@@ -176,7 +248,7 @@ func runC04(r *mon.Run) {
 	r.Extra("derived_g2", hb(c.g2))
 
 	if hk.HaveMul {
-		r.Require("c04:split:rounding-bit-boundary", "c04:split:limb-carry-boundary", "c04:split:extreme-halves", "c04:split:half>=2^127",
+		r.Require("c04:split:rounding-bit-boundary", "c04:split:limb-carry-boundary", "c04:split:extreme-halves", "c04:split:structured-halves", "c04:split:half-order-limb-relations", "c04:split:half>=2^127",
 			"c04:split:k1-negated", "c04:split:k2-negated", "c04:round:bit383=1", "c04:round:bit383=0", "c04:round:carry-into-next-limb")
 		maxBits := make([]int, 64)
 		r.Each("c04/split", r.N(150000, 6000000), func(w *mon.W, i int) {
@@ -268,7 +340,7 @@ func runC04(r *mon.Run) {
 	// --- end to end --------------------------------------------------------------
 	pool := knownPointPool(r.Seed, r.N(4, 24))
 	np := len(pool)
-	r.Require("c04:mult:P=inf", "c04:mult:s=0", "c04:mult:rcv=P", "c04:mult:rep-nontrivial", "c04:mult:extreme-halves", "c04:mult:rounding-bit-boundary")
+	r.Require("c04:mult:P=inf", "c04:mult:s=0", "c04:mult:rcv=P", "c04:mult:rep-nontrivial", "c04:mult:extreme-halves", "c04:mult:rounding-bit-boundary", "c04:mult:structured-halves", "c04:mult:half-order-limb-relations")
 	entry := []string{"ScalarMult", "MultiScalarMult[1]", "DoubleScalarMultBasepointVartime(0,s,P)", "MultiScalarMultVartime[1]", "scalarMultVartimeGLV"}
 	r.Each("c04/mult", r.N(2600, 100000), func(w *mon.W, i int) {
 		rng := w.Rng
